@@ -109,6 +109,7 @@ N = lambda n: ('n', n)
 FAMILIES = {
     'string': ('string', {'a': ('s', ''), 'b': ('s', 'a'), 'c': ('s', 'b')}),
     'nat': ('nat', {'a': N(0), 'b': N(1), 'c': N(70000)}),
+    'int': ('int', {'a': N(-70000), 'b': N(-64), 'c': N(63)}),      # negative keys whose magnitude needs more than the head byte
     'bytes': ('bytes', {'a': ('b', b''), 'b': ('b', b'\x00'), 'c': ('b', b'\x00\x00')}),
     'pair': ('pair nat string', {'a': ('p', [N(0), ('s', '')]), 'b': ('p', [N(0), ('s', 'x')]), 'c': ('p', [N(1), ('s', '')])}),
     'comb4': ('pair nat nat nat nat', {'a': ('p', [N(0), N(0), N(0), N(0)]), 'b': ('p', [N(1), N(2), N(3), N(4)]), 'c': ('p', [N(1), N(2), N(3), N(5)])}),
@@ -295,17 +296,17 @@ def run(ctx):
                 'parameter and stored (copy); every history of GET / MEM / UPDATE (set or remove) / GET_AND_UPDATE up to 3 (4) operations. Leg A: the layered view (local bindings / '
                 'removals over chain contents) equals a flat dictionary, every observation equals the dictionary\'s, and the diff the layer stands for applied to the chain gives the '
                 'dictionary. Leg B: each history is compiled into a contract run by Interpreter.run_code against a simulated node serving the on-chain entries (real ShellQuery path), '
-                'once per key family (string, nat, bytes, pair, 4-leaf comb, nested comb with bool/option, or) with the depth given in replayed_by_key_family; GET/MEM results, the '
+                'once per key family (string, nat, int, bytes, pair, 4-leaf comb, nested comb with bool/option, or) with the depth given in replayed_by_key_family; GET/MEM results, the '
                 'emitted lazy diff applied to the chain contents, its action / id / copy source and each key_hash (recomputed with hashlib from an own legacy-form PACK) are compared; '
                 'non-trivial = history has an update')
-    ctx.assumptions = ['string values (the empty string included); keys of 7 comparable type families', 'the exact shape of the diff is not prescribed: only its effect, action, id, copy source and key hashes',
+    ctx.assumptions = ['string values (the empty string included); keys of 8 comparable type families', 'the exact shape of the diff is not prescribed: only its effect, action, id, copy source and key hashes',
                        'key_hash recomputed independently (own binary Micheline of the key with nested pairs + blake2b + base58)']
     I = ALL_INITS
     if ctx.quick:
         run_config(ctx, ['a', 'b'], 3, [I[0], I[7], I[6]], {'string': 3})
         run_config(ctx, ['a', 'b'], 2, [I[0], I[7], I[5]], {f: 2 for f in FAMILIES if f != 'string'})
     else:
-        run_config(ctx, ['a', 'b', 'c'], 3, [I[0], I[1], I[4], I[5], I[9], I[7]], {'string': 3, 'comb4': 3, 'nat': 2, 'bytes': 2, 'pair': 2, 'comb3n': 2, 'or': 2})
+        run_config(ctx, ['a', 'b', 'c'], 3, [I[0], I[1], I[4], I[5], I[9], I[7]], {'string': 3, 'comb4': 3, 'nat': 2, 'int': 2, 'bytes': 2, 'pair': 2, 'comb3n': 2, 'or': 2})
         run_config(ctx, ['a', 'b'], 4, [I[0], I[1], I[8]], {'string': 4})
     ctx.exhaustive = True
 
